@@ -77,10 +77,22 @@ func (r *Run) call(st *State, fr *Frame, x *ssa.Call, b *ssa.BasicBlock, idx int
 	}
 	// dynamic call of a function value
 	fv := r.valueOf(st, fr, com.Value)
-	if ci, ok := st.closure[fv.L[0].String()]; ok && r.inlinable(ci.fn, fr) {
+	ci, ok := st.closure[fv.L[0].String()]
+	if !ok {
+		if fn, isFn := fnByTerm[fv.L[0].String()]; isFn {
+			ci, ok = &closureInfo{fn: fn}, true
+		}
+	}
+	if ok {
 		spec, cs := r.v.specFor(ci.fn)
-		r.inline(st, fr, ci.fn, spec, cs, args, ci.bindings, te, cont)
-		return false
+		if spec != nil && !spec.Has("inline") {
+			fr.regs[x] = r.applyContract(st, fr, x, ci.fn, spec, cs, args, te)
+			return true
+		}
+		if r.inlinable(ci.fn, fr) {
+			r.inline(st, fr, ci.fn, spec, cs, args, ci.bindings, te, cont)
+			return false
+		}
 	}
 	if r.v.isPureFuncType(com.Value.Type()) || r.isPureField(fr, com.Value) {
 		sig := types.Unalias(te.apply(com.Value.Type())).Underlying().(*types.Signature)
